@@ -127,7 +127,7 @@ def _guards(g, node_id):
     return guard_atoms(g.edge_guards(node_id))
 
 
-@R.rule("C10-R2", floor=6, template="T-PATH",
+@R.rule("C10-R2", floor=7, template="T-PATH",
         desc="_only_one_row: NoResultFound only under raise_for_none (and no None return for a missing row when "
              "set); MultipleResultsFound only under raise_for_second_row; the result is closed before every "
              "normal return of a row and before raising for a second row; column 0 is projected only under scalar")
@@ -224,7 +224,7 @@ def _is_fetch(c: ast.Call, f) -> bool:
 FETCH_PRIMS = ("_fetchiter_impl", "_fetchone_impl", "_fetchall_impl", "_fetchmany_impl", "_soft_close")
 
 
-@R.rule("C10-R3", floor=20, template="T-SIBLING",
+@R.rule("C10-R3", floor=23, template="T-SIBLING",
         desc="filtered views share the parent result: every view constructor stores its result argument as "
              "_real_result and derives _metadata from it; FilterResult delegates each fetch primitive to "
              "_real_result; scalars/mappings/tuples/columns return self or a view over self/_real_result")
